@@ -79,6 +79,8 @@ def run(chk):
         scns = load_corpus("C13") + load_corpus("C14")
         n = (700 if quick else 12000) * factor
         scns += [gen_scenario(chk.rng) for _ in range(n)]
+        scns += [gen_window_scenario(chk.rng) for _ in range(n // 4)]
+        scns += [gen_settings_scenario(chk.rng) for _ in range(n // 4)]
     res, htbl = evaluate("C13", build, scns)
 
     distinct = set()
